@@ -52,6 +52,9 @@ func probeAdd(i int, n int64) { probes[i] += n }
 func probeSite(i int) { probes[prSiteBase+i]++ }
 
 //go:norace
+func probeGet(i int) int64 { return probes[i] }
+
+//go:norace
 func probeSnapshot() [prEnd]int64 { return probes }
 
 //go:norace
